@@ -62,6 +62,7 @@ def gen_cases(rng, tier):
         d["durs"] = [rng.choice([0, 0, 0, 2, inner, ttl - 2, ttl + 2]) if kind in ("fail", "failc") else 0 for _ in ev]
         d["script"] = [rng.choice(["ok", "ok", "ok", "A", "B", "A1"]) for _ in range(20)]
         d["exc_tuple"] = rng.random() < 0.4          # exceptions=(KeyError, ExcA) instead of exceptions=ExcA
+        d["default_exc"] = len(ev) % 2 == 1          # failover: the list given through set_default_fail_exceptions
         cases.append(d)
     return cases
 
@@ -81,6 +82,10 @@ def run_impl(case):
         elif kind == "soft" and case.get("default_inner"): deco = cache.soft(ttl=ttl, exceptions=listed)
         elif kind == "early": deco = cache.early(ttl=ttl, early_ttl=inner, background=case["bg"])
         elif kind == "soft": deco = cache.soft(ttl=ttl, soft_ttl=inner, exceptions=listed)
+        elif kind == "fail" and case.get("default_exc"):
+            # the listed exceptions come from the facade's configured default, not from the call
+            cache.set_default_fail_exceptions(*(listed if isinstance(listed, tuple) else (listed,)))
+            deco = cache.failover(ttl=ttl)
         elif kind == "fail": deco = cache.failover(ttl=ttl, exceptions=listed)
         elif kind == "failc":
             def cond(result, args, kwargs, key=None):
